@@ -4,6 +4,7 @@ flags_for() {
     asan) echo "-std=c++17 -g -O1 -fsanitize=address,undefined,fuzzer-no-link -fno-sanitize-recover=undefined -fno-omit-frame-pointer -D_GLIBCXX_SANITIZE_VECTOR -D_GLIBCXX_ASSERTIONS -DPISTACHE_VERIF_HOOKS -pthread" ;;
     tsan) echo "-std=c++17 -g -O1 -fsanitize=thread -fno-omit-frame-pointer -DPISTACHE_VERIF_HOOKS -pthread" ;;
     plain) echo "-std=c++17 -g -O1 -fno-omit-frame-pointer -D_GLIBCXX_ASSERTIONS -DPISTACHE_VERIF_HOOKS -pthread" ;;
+    cov) echo "-std=c++17 -g -O1 -fprofile-instr-generate -fcoverage-mapping -fno-omit-frame-pointer -D_GLIBCXX_ASSERTIONS -DPISTACHE_VERIF_HOOKS -pthread" ;;
     *) echo "unknown config $1" >&2; return 1 ;;
   esac
 }
